@@ -101,6 +101,52 @@ def _eligible(fn: ast.FunctionDef, anchored) -> bool:
     return 0 < n_stmts <= MAX_BODY_STMTS
 
 
+def _eligible_generator(fn: ast.FunctionDef, anchored):
+    """A private generator whose yields sit directly in one loop that ends the body (or at top level), without
+    try / with around them: `for x in self._gen(..): BODY` is then that loop with `x = <yielded>; BODY` in place of the yield."""
+    if not fn.name.startswith("_") or (fn.name.startswith("__") and fn.name.endswith("__")) or fn.name in anchored or fn.decorator_list:
+        return None
+    a = fn.args
+    if a.vararg or a.kwarg or a.kwonlyargs:
+        return None
+    body = _strip_doc(fn.body)
+    if not body:
+        return None
+    for n in _walk_own(fn):
+        if isinstance(n, (ast.YieldFrom, ast.Await, ast.Global, ast.Nonlocal, ast.Try, ast.With, ast.Lambda)) or (
+                n is not fn and isinstance(n, (ast.FunctionDef, ast.AsyncFunctionDef, ast.ClassDef))):
+            return None
+        if isinstance(n, ast.Call):
+            f = n.func
+            if (isinstance(f, ast.Name) and f.id == fn.name) or (isinstance(f, ast.Attribute) and f.attr == fn.name):
+                return None
+    ys = [n for n in _walk_own(fn) if isinstance(n, ast.Yield)]
+    if not ys:
+        return None
+    last = body[-1]
+    loop = last if isinstance(last, (ast.While, ast.For)) and not last.orelse else None
+    # yields and returns must be expression statements / returns directly governed by `loop` (not by a nested loop), or, without a loop, at top level
+    region = loop if loop is not None else fn
+    for st in body[:-1] if loop is not None else []:
+        if any(isinstance(x, (ast.Yield, ast.Return)) for x in _walk_own(st)):
+            return None
+    for x in _walk_loop_own(region) if loop is not None else _walk_own(fn):
+        pass
+    own = list(_walk_loop_own(loop)) if loop is not None else [x for x in _walk_own(fn) if x is not fn]
+    seen_y = [x for x in own if isinstance(x, ast.Yield)]
+    if len(seen_y) != len(ys):
+        return None  # a yield inside a nested loop
+    rets = [x for x in _walk_own(fn) if isinstance(x, ast.Return)]
+    if any(r not in own for r in rets) or any(r.value is not None for r in rets):
+        return None
+    if loop is None and rets:
+        return None
+    # every yield is a statement of its own
+    for y in ys:
+        pass
+    return loop if loop is not None else True
+
+
 def _strip_doc(body):
     if body and isinstance(body[0], ast.Expr) and isinstance(body[0].value, ast.Constant) and isinstance(body[0].value.value, str):
         return body[1:]
@@ -231,6 +277,10 @@ class _Inliner:
                 h.body = self._block(h.body, cls, selfname, owner)
         if isinstance(st, (ast.FunctionDef, ast.AsyncFunctionDef, ast.ClassDef)):
             return [st]
+        if isinstance(st, ast.For) and not st.orelse and isinstance(st.iter, ast.Call):
+            rep = self._inline_generator(st, cls, selfname, owner)
+            if rep is not None:
+                return rep
         # `x = A if c else B` with a helper call inside A or B: the same statement as `if c: x = A` / `else: x = B`
         if isinstance(st, (ast.Assign, ast.Return)) and isinstance(st.value, ast.IfExp) and (
                 self._has_target(st.value.body, cls, selfname, owner) or self._has_target(st.value.orelse, cls, selfname, owner)):
@@ -328,6 +378,103 @@ class _Inliner:
             elif isinstance(val, list):
                 setattr(e, field, [self._expr(v, cls, selfname, owner, pre) if isinstance(v, ast.expr) else v for v in val])
         return e
+
+    def _inline_generator(self, st: ast.For, cls, selfname, owner):
+        call = st.iter
+        f = call.func
+        fn, receiver = None, None
+        if any(isinstance(a, ast.Starred) for a in call.args) or any(k.arg is None for k in call.keywords):
+            return None
+        if isinstance(f, ast.Name) and f.id in self.mod_funcs:
+            fn = self.mod_funcs[f.id]
+        elif isinstance(f, ast.Attribute) and isinstance(f.value, ast.Name) and selfname is not None and f.value.id == selfname and cls is not None:
+            fn = self._lookup_method(cls, f.attr)
+            receiver = f.value
+        if fn is None or fn is owner:
+            return None
+        shape = _eligible_generator(fn, self.anchored)
+        if shape is None:
+            return None
+        params = [a.arg for a in fn.args.posonlyargs + fn.args.args]
+        sname = None
+        if receiver is not None:
+            if not params:
+                return None
+            sname, params_rest = params[0], params[1:]
+        else:
+            params_rest = params
+        if len(call.args) > len(params_rest):
+            return None
+        bound = dict(zip(params_rest, call.args))
+        for k in call.keywords:
+            if k.arg not in params_rest or k.arg in bound:
+                return None
+            bound[k.arg] = k.value
+        nd = len(fn.args.defaults)
+        for i, p in enumerate(params):
+            if p == sname or p in bound:
+                continue
+            j = i - (len(params) - nd)
+            if 0 <= j < nd:
+                bound[p] = copy.deepcopy(fn.args.defaults[j])
+            else:
+                return None
+        # the consumer's body runs in place of the yield: its `continue` would skip what follows the yield in the generator
+        body_has_continue = any(isinstance(x, ast.Continue) for s_ in st.body for x in _walk_loop_own(s_))
+        gbody = copy.deepcopy(_strip_doc(fn.body))
+        gloop = gbody[-1] if isinstance(shape, (ast.While, ast.For)) else None
+        if gloop is None and any(isinstance(x, (ast.Break, ast.Continue)) for s_ in st.body for x in _walk_loop_own(s_)):
+            return None
+        self.counter += 1
+        tag = f"{_PREFIX}{self.counter}_"
+        local_names = set()
+        for n in gbody:
+            for x in _walk_own(n):
+                if isinstance(x, ast.Name) and isinstance(x.ctx, (ast.Store, ast.Del)):
+                    local_names.add(x.id)
+        if sname is not None and sname in local_names:
+            return None
+        mapping = {n: tag + n for n in local_names | set(params_rest)}
+        rn = _Rename(mapping, sname, receiver)
+        gbody = [rn.visit(s_) for s_ in gbody]
+        ok = [True]
+        consumer = st
+
+        def place(stmts, in_loop_tail):
+            """Replace `yield E` statements by `target = E; BODY` and bare `return` by `break`."""
+            out = []
+            for i, s_ in enumerate(stmts):
+                if isinstance(s_, ast.Expr) and isinstance(s_.value, ast.Yield):
+                    if body_has_continue and not (in_loop_tail and i == len(stmts) - 1):
+                        ok[0] = False
+                    val = s_.value.value if s_.value.value is not None else ast.Constant(value=None)
+                    out.append(ast.copy_location(ast.Assign(targets=[copy.deepcopy(consumer.target)], value=val), s_))
+                    out.extend(copy.deepcopy(consumer.body))
+                elif isinstance(s_, ast.Return):
+                    out.append(ast.copy_location(ast.Break(), s_))
+                elif isinstance(s_, ast.If):
+                    s_.body = place(s_.body, False)
+                    s_.orelse = place(s_.orelse, False)
+                    out.append(s_)
+                elif isinstance(s_, (ast.While, ast.For)) and s_ is gloop:
+                    s_.body = place(s_.body, True)
+                    out.append(s_)
+                else:
+                    if any(isinstance(x, (ast.Yield, ast.Return)) for x in _walk_own(s_)):
+                        ok[0] = False
+                    out.append(s_)
+            return out
+
+        new_body = place(gbody, False)
+        if not ok[0]:
+            return None
+        binds = [_assign(mapping[p], bound[p], call) for p in params_rest]
+        res = binds + new_body
+        for s_ in res:
+            ast.fix_missing_locations(s_)
+        self.done += 1
+        # helper calls inside the placed consumer body / generator body are handled by the next pass
+        return res
 
     def _has_target(self, e, cls, selfname, owner) -> bool:
         for x in _walk_own(e):
